@@ -57,7 +57,7 @@ def _precedes_in_block(guard: ast.If, write_line: int) -> bool:
 
 
 def rule_checked_encoding(ctx, rep, rid: str) -> None:
-    rep.rule(rid, "every operand byte the compiler writes into the bytecode is range-checked against its field width (255 / 65535) before any masking, with a JSError-family refusal", floor=3)
+    rep.rule(rid, "every operand byte the compiler writes into the bytecode is range-checked against its field width (255 / 65535) before any masking, with a JSError-family refusal", floor=2)
     comp = ctx.tree.class_named("Compiler")
     t = ctx.tree
     for m in comp.methods.values():
@@ -67,7 +67,7 @@ def rule_checked_encoding(ctx, rep, rid: str) -> None:
                 writes.append((n.args[0], n.lineno))
             elif isinstance(n, ast.Assign) and any(isinstance(tg, ast.Subscript) and norm(tg.value) == "self.bytecode" for tg in n.targets):
                 writes.append((n.value, n.lineno))
-        by_var: Dict[str, List[Tuple[ast.AST, int]]] = {}
+        by_var: Dict[Tuple[str, int], List[Tuple[ast.AST, int]]] = {}
         for e, line in writes:
             if opcode_member(e) or (_const_int(e) == 0):
                 continue
@@ -77,23 +77,24 @@ def rule_checked_encoding(ctx, rep, rid: str) -> None:
             if not names:
                 rep.bad(rid, f"{m.qual}:write:{short(e, 30)}", f"{m.name} writes {short(e, 30)} into the bytecode: not an operand derived from a checked variable", f"{m.module.rel}:{line}")
                 continue
-            by_var.setdefault(names[0], []).append((e, line))
-        for var, ws in by_var.items():
-            masked = [w for w in ws if "&" in norm(w[0]) or ">>" in norm(w[0])]
-            width = 2 if any(">>" in norm(w[0]) for w in ws) and len(masked) >= 2 else 1
-            groups = [(2, masked)] if width == 2 else []
-            plain = [w for w in ws if w not in masked] if width == 2 else ws
-            if plain:
-                groups.append((1, plain))
-            for wd, grp in groups:
-                key = f"{m.qual}:{var}:{wd * 8}-bit"
-                line = min(l for _, l in grp)
-                g = _range_guard(m, var, wd, line, t)
-                if g:
-                    rep.ok(rid, key, {"guard": g, "writes": [short(e, 40) for e, _ in grp]})
-                else:
-                    how = "masked with & 0xFF / >> 8" if wd == 2 else "appended as one byte"
-                    rep.bad(rid, key, f"{m.name} writes `{var}` into a {wd * 8}-bit field ({how}) without first comparing it with {CAPS[wd][0]} and refusing with a JSError: " + ("larger jump targets wrap silently" if wd == 2 else "operands above 255 surface as a host ValueError from bytes()"), f"{m.module.rel}:{line}")
+            # writes are grouped by the statement block they sit in: one block = one operand field
+            blk = 0
+            p = getattr(e, "_parent", None)
+            while p is not None and not isinstance(p, ast.stmt):
+                p = getattr(p, "_parent", None)
+            if p is not None:
+                blk = id(getattr(p, "_parent", None)) * 2 + (1 if p in getattr(getattr(p, "_parent", None), "orelse", []) else 0)
+            by_var.setdefault((names[0], blk), []).append((e, line))
+        for (var, _blk), ws in by_var.items():
+            wd = 2 if any(">>" in norm(w[0]) for w in ws) else 1
+            key = f"{m.qual}:{var}:{wd * 8}-bit"
+            line = min(l for _, l in ws)
+            g = _range_guard(m, var, wd, line, t)
+            if g:
+                rep.ok(rid, key, {"guard": g, "writes": [short(e, 40) for e, _ in ws]})
+            else:
+                how = "masked with & 0xFF / >> 8" if wd == 2 else ("masked with & 0xFF" if any("&" in norm(w[0]) for w in ws) else "appended as one byte")
+                rep.bad(rid, key, f"{m.name} writes `{var}` into a {wd * 8}-bit field ({how}) without first comparing it with {CAPS[wd][0]} and refusing with a JSError: " + ("larger jump targets wrap silently" if wd == 2 else "operands above 255 are truncated or surface as a host ValueError from bytes()"), f"{m.module.rel}:{line}")
 
 
 def rule_single_encoder(ctx, rep, rid: str) -> None:
